@@ -17,7 +17,7 @@ func init() {
 		Explanation: "Decided: the write-ahead SHAPE of commit on every control-flow path — dirty pages, barrier, meta page, barrier, in that order; " +
 			"the only functions that write the data file are init/write/writeMeta (+grow's truncate); no error of the I/O layer is dropped; " +
 			"the meta page goes to slot txid%2 and is checksummed after its last modification; db.meta() picks the valid meta with the larger txid. " +
-			"NOT decided: that the page set written is the right one, torn-sector behaviour, what recovery reads after a crash (value-level; see C11 for checksum coverage), NoSync caveats. Round 3: no page can be allocated between the decision to grow the file and tx.write (the truncate+fsync covers every page of the commit).",
+			"NOT decided: that the page set written is the right one, torn-sector behaviour, what recovery reads after a crash (value-level; see C11 for checksum coverage), NoSync caveats. Round 3: no page can be allocated between the decision to grow the file and tx.write (the truncate+fsync covers every page of the commit). Round 3: each option reaches the DB switch of the same name in Open.",
 		Run: func(c *Ctx) {
 			ruleOptionsWiredByName(c, "C01.R12") // NoSync / NoGrowSync are the documented exclusions: no other option may end up in those switches
 			c01R1(c, "C01.R1")
